@@ -112,6 +112,16 @@ CLAIMS = {
          "<= 3 (4) with adversarial call sequences on the real crate, with the probe and with the closure idiom, judges the implementation's "
          "trace with the grammar predicate and compares it with the model's execution of the same tree. Scheduler-using operators are not "
          "nodes of these trees (their traces are judged under C02 / C07-C09).", "DESIGN.md section 5 C01"),
+ "C10": ("Theorems over a lock-level model (threads = programs of lock / unlock / enter-callback / leave-callback actions, any schedule): "
+         "C10_no_deadlock (programs that lock only upwards in the rank order upstream -> downstream, observer list -> chamber -> subscriber "
+         "cells, and unlock in reverse order never deadlock: any number of threads, any programs, any schedule), C10_callbacks_are_exclusive "
+         "(no subscriber's callback is ever running on two threads), C10_subject_next_disciplined (for any number of subscribers) / "
+         "_subscribe_unsubscribe_ / _two_input_disciplined (the crate's operations are such programs), C10_cancel_waits_for_running_poll over "
+         "all executions of Remote::poll against TaskHandle::unsubscribe, with the refutation of the variant that lets go of the mutex. The "
+         "programs are tied to the crate by recording, through a hook in MutArc, the mutexes every operation locks and comparing them with the "
+         "model's acquisitions; real-thread stress runs check overlap, common order and termination on seven pipelines. PARTIAL: the common-"
+         "order clause and the lost-wake-up clause (C14_no_lost_wakeup) have no schedule-enumerating harness; merge_all, share, observe_on and "
+         "delay are covered by the stress runs and the general theorems, their programs are not transcribed.", "DESIGN.md section 5 C10"),
  "C11": ("Theorems (share / publish built on the subject machine of C06, upstream a counted subscription and a tap): "
          "C11_source_subscribed_at_most_once (any history, any number of subscribers, hot or cold source), C11_nothing_before_connection "
          "(publish: nothing is subscribed, driven or delivered before connect(); share: before the first subscriber), C11_multicast (an "
